@@ -3,6 +3,7 @@ import EudoxiaModel.Model.Obs
 import EudoxiaModel.Model.Csv
 import EudoxiaModel.Model.SObs
 import EudoxiaModel.Model.Sim
+import EudoxiaModel.Model.Sweep
 /-! JSON → observation records (the shape produced by the harness and by the driver itself). -/
 open Lean Eudoxia
 
@@ -136,6 +137,11 @@ def tickEv (j : Json) : Except String Sim.TickEv := do
   return { arrivals := ← natList (← nth l 0), nAsg := ← nat (← nth l 1), nSus := ← nat (← nth l 2),
            results := ← (← arr (← nth l 3)).mapM (fun x => do let y ← arr x; return ((← nat (← nth y 0)) != 0, ← nat (← nth y 1))),
            finished := ← (← arr (← nth l 4)).mapM (fun x => do let y ← arr x; return (← nat (← nth y 0), ← nat (← nth y 1))) }
+
+def tickH (j : Json) : Except String Sweep.TickH := do
+  let l ← arr j
+  return { arr := ← (← arr (← nth l 0)).mapM (fun x => do let y ← arr x; return (← nat (← nth y 0), ← natList (← nth y 1))),
+           hasRes := (← nat (← nth l 1)) != 0, completed := ← natList (← nth l 2) }
 
 def showFrac (o : Option (Nat × Nat)) : String := match o with | some (a, b) => "[" ++ toString a ++ "," ++ toString b ++ "]" | none => "null"
 def showClass (c : Sim.ClassStats) : String :=
